@@ -36,8 +36,8 @@ def crop_effects(ctx, rule='C07-R2'):
     types = [o for o in sets if o.col == 'type']
     heights = [o for o in sets if o.col == 'height']
     other = [o for o in sets if o.col not in ('type', 'height')]
-    drops = [o for o in calls if o.name == 'drop']
-    rest = [o for o in calls if o.name != 'drop']
+    drops = [o for o in calls if o.name in ('drop', 'filter')]
+    rest = [o for o in calls if o.name not in ('drop', 'filter')]
     ctx.check(len(types) == 1 and len(heights) == 1 and not other and len(drops) == 1 and not rest, rule, Q,
               f.node.name, f.loc(),
               f'cropping block performs type x{len(types)}, height x{len(heights)}, other columns '
@@ -57,21 +57,25 @@ def crop_effects(ctx, rule='C07-R2'):
     ctx.check(h.value in NAN_TERMS, rule, Q, f.node.name, f.loc(),
               f'blanked hits get height {T.show(h.value)} instead of NaN', instance='height := NaN')
     ctx.check(t_row is not None and h_row is not None and strip_updates(t_row) == strip_updates(h_row)
-              and t_row[0] == 'rows', rule, Q,
+              and t_row[0] in ('rows', 'mask'), rule, Q,
               f.node.name, f.loc(),
               'type and height are not blanked on the same row selection', instance='type and height blanked on the same rows')
     axis = dict(d.kws).get('axis', C(0))
     labels = d.args[0] if d.args else dict(d.kws).get('index', dict(d.kws).get('labels'))
     ctx.check(axis in (C(0), C('index')) and labels is not None, rule, Q, f.node.name, f.loc(),
               f'the drop does not remove rows (axis {T.show(axis)})', instance='second selection: rows dropped')
-    if t_row is None or labels is None or t_row[0] != 'rows':
+    if t_row is None or labels is None or t_row[0] not in ('rows', 'mask'):
         return None
-    sel1 = _sel_parts(t_row[2])
-    sel2 = _sel_parts(labels)
+    # a selection is either index(frame[cond]) used as labels, or the boolean condition itself
+    sel1 = _sel_parts(t_row[2]) if t_row[0] == 'rows' else (t.state, t_row[1])
+    if d.name == 'filter':
+        sel2 = (d.state, T.mk_not(labels))      # rows kept = not (rows removed)
+    else:
+        sel2 = _sel_parts(labels)
     ok = sel1 is not None and sel2 is not None
     ctx.check(ok, 'C07-R1', Q, f.node.name, f.loc(),
               'row selections are not index(frame[condition]) terms: '
-              f'{T.show(t.row[2], maxlen=100)} / {T.show(labels, maxlen=100)}', instance='selections are frame[cond].index')
+              f'{T.show(t_row[-1], maxlen=100)} / {T.show(labels, maxlen=100)}', instance='selections are frame[cond].index')
     if not ok:
         return None
     # selections are taken from the frame being modified
